@@ -90,6 +90,7 @@ def run(ctx):
     # oracle: the specification on the dumped address space vs the server's answers
     new, fails, seen = 0, [], set()
     nbrowse, nonempty, shapes = 0, 0, set()
+    nmap, map_cases = 0, []
     for h in hists:
         space = dict(std or {})
         for nd in h.init.get("nodes") or []:
@@ -97,6 +98,29 @@ def run(ctx):
         memo = {}
         for e in h.evs:
             if e["ev"]["kind"] != "browse":
+                continue
+            if e["ev"].get("mapns") and e["out"]["k"] == "browse":
+                # MapNamespace: the references are made up from the keys; the description must still be honoured
+                mp = h.init.get("map") or {}
+                for bd, ni, res in zip(e["ev"]["browses"], e["ev"]["node_ints"], e["out"]["browse"]):
+                    nmap += 1
+                    made = []
+                    if ni == 84:
+                        made = [{"type": 35, "fwd": True, "target": mp["objects"], "class": 1, "named": True}]
+                    elif ni == 85:
+                        made = [{"type": 47, "fwd": True, "target": k, "class": 2, "named": True} for k in mp["keys"]]
+                    fake = {"id": bd["node"], "refs": made}
+                    sp2 = dict(space)
+                    sp2[bd["node"]["key"]] = fake
+                    st, want = spec_refs(sp2, h.init["ns_count"], bd, memo)
+                    got = [(r["type"], r["fwd"], r["target"], r["class"]) for r in res["refs"]]
+                    map_cases.append((h, mp, bd, ni, res))
+                    if res["st"] != 0 or sorted(got) != sorted(want):
+                        extra = [x for x in got if x not in want]
+                        fails.append(("mapns-description-ignored" if extra else "mapns-missing-references",
+                                      "Browse of %s in the map namespace (dir %d, type %s, subtypes %s, mask %d): %d unexpected, %d missing; e.g. %s" % (
+                                          bd["node"]["str"], bd["dir"], bd["reftype"]["str"], bd["subtypes"], bd["mask"], len(extra),
+                                          len([x for x in want if x not in got]), json.dumps((extra or want)[:2])), e, h))
                 continue
             if e["out"]["k"] != "browse":
                 fails.append(("no-answer", "Browse was not answered: %s" % json.dumps(e["out"])[:200], e, h))
@@ -150,13 +174,40 @@ def run(ctx):
     if crashes:
         corr_ok = False
 
+    # correspondence for the map namespace: Model.ServerBrowse.map_browse on the same descriptions (multiset of references)
+    map_bad = []
+    if map_cases:
+        lines = []
+        for h, mp, bd, ni, res in map_cases:
+            nodes = "; ".join(sc.node(x) for x in (h.init.get("nodes") or []))
+            refs = "; ".join(sc.rdesc(r) for r in sorted(res["refs"], key=lambda r: (r["type"], r["target"])))
+            lines.append("(Space %d ([%s] ++ g_std_nodes), (%d, %d, [%s], %d), BD %s %d %s %s %d, (%d, [%s]))" % (
+                h.init["ns_count"], nodes, mp["ns"], mp["objects"]["key"], "; ".join(str(k["key"]) for k in sorted(mp["keys"], key=lambda k: k["key"])), ni,
+                sc.nid(bd["node"]), bd["dir"], sc.nid(bd["reftype"]), sc.b(bd["subtypes"]), bd["mask"], res["st"], refs))
+        okm, idxm, clogm = ctx.eval_cases(
+            sc.IMPORTS + "\nFrom Opcua Require Import Gen.ServerStdSpace.",
+            "space * (N * key * list key * N) * bdesc * (N * list rdesc)", lines,
+            """  let '(sp, (ns, objects, keys, node_int), bd, (st, refs)) := c in
+  match map_browse FUEL sp ns objects keys node_int bd with
+  | Ok (st', refs') => (st =? st') && (Nat.eqb (length refs) (length refs')) &&
+                       forallb (fun r => existsb (fun r' => if rdesc_eq_dec r r' then true else false) refs') refs
+  | _ => false
+  end""", shard=60, name="MapCases")
+        if not okm:
+            corr_ok = False
+            detail["map_cases"] = clogm[-1500:]
+        elif idxm:
+            corr_ok = False
+            map_bad = [map_cases[i] for i in idxm]
+            detail["map_model_vs_impl_mismatches"] = [{"browse": c[2], "node_int": c[3], "result": c[4]} for c in map_bad[:5]]
+
     ctx.coverage.update({
         "evaluations": nbrowse, "distinct_nontrivial": len(shapes),
         "rule": "Browse requests by a real client against the real server: nodes of the standard nodeset and generated nodes x direction "
                 "(forward, inverse, both, invalid) x reference type (abstract supertypes, leaves, unknown, i=0) x IncludeSubtypes x class mask; "
                 "distinct = distinct (direction, reference type, subtypes, mask used, result non-empty)",
         "histories": len(hists), "browse_descriptions": nbrowse, "non_empty_results": nonempty,
-        "std_nodes_in_oracle": len(std or {}),
+        "std_nodes_in_oracle": len(std or {}), "map_namespace_descriptions": nmap, "map_model_impl_mismatches": len(map_bad),
         "samples": [{"browse": e["ev"]["browses"][0], "refs_returned": len(e["out"]["browse"][0]["refs"])}
                     for h in hists[:3] for e in h.evs[2:4] if e["out"]["k"] == "browse"],
         "traces_validated_against_impl": len([h for h in hists if h.final is not None]),
